@@ -3,6 +3,7 @@
  * cJSON nodes (the projection is a complete abstraction, DESIGN 4.2), the call is made, and the resulting
  * heap is compared field by field, link by link, block by block with the outcomes the specification admits. */
 #include "base.h"
+#include "value.h"
 #include "cJSON.h"
 #include "cJSON_Utils.h"
 #include <math.h>
@@ -166,8 +167,8 @@ static int run_call(const jv *act, cres *r, char *why, size_t wn)
     (void)n;
     if (!strcmp(a, "Create")) {
         int kc = kind_code(A(1)->s); WIN(2);
-        switch (kc) { case cJSON_NULL: RPTR(cJSON_CreateNull()); break; case cJSON_True: RPTR(cJSON_CreateTrue()); break;
-            case cJSON_False: RPTR(cJSON_CreateFalse()); break; case cJSON_Array: RPTR(cJSON_CreateArray()); break;
+        switch (kc) { case cJSON_NULL: RPTR(cJSON_CreateNull()); break; case cJSON_True: if (vd_salt() & 1) RPTR(cJSON_CreateTrue()); else RPTR(cJSON_CreateBool(vb_truthy(1, vd_salt() >> 1))); break;
+            case cJSON_False: if (vd_salt() & 1) RPTR(cJSON_CreateFalse()); else RPTR(cJSON_CreateBool(0)); break; case cJSON_Array: RPTR(cJSON_CreateArray()); break;
             case cJSON_Object: RPTR(cJSON_CreateObject()); break; default: snprintf(why, wn, "bad kind"); return STRUCT_FAIL; }
     } else if (!strcmp(a, "CreateNumber")) { WIN(2); RPTR(cJSON_CreateNumber((double)jv_int(A(1))));
     } else if (!strcmp(a, "CreateStr")) { char *s = K_(A(2)); WIN(3); RPTR(kind_code(A(1)->s) == cJSON_Raw ? cJSON_CreateRaw(s) : cJSON_CreateString(s));
@@ -181,7 +182,7 @@ static int run_call(const jv *act, cres *r, char *why, size_t wn)
     } else if (!strcmp(a, "AddNewToObject")) {
         cJSON *p = N_(A(1)); char *k = K_(A(2)); int kc = kind_code(A(3)->s); char *s = K_(A(4)); double d = (double)jv_int(A(5)); WIN(6);
         switch (kc) { case cJSON_NULL: RPTR(cJSON_AddNullToObject(p, k)); break; case cJSON_True: if (vd_salt() & 1) RPTR(cJSON_AddTrueToObject(p, k)); else RPTR(cJSON_AddBoolToObject(p, k, vb_truthy(1, vd_salt() >> 1))); break;
-            case cJSON_False: RPTR(cJSON_AddBoolToObject(p, k, 0)); break; case cJSON_Number: RPTR(cJSON_AddNumberToObject(p, k, d)); break;
+            case cJSON_False: if (vd_salt() & 1) RPTR(cJSON_AddFalseToObject(p, k)); else RPTR(cJSON_AddBoolToObject(p, k, 0)); break; case cJSON_Number: RPTR(cJSON_AddNumberToObject(p, k, d)); break;
             case cJSON_String: RPTR(cJSON_AddStringToObject(p, k, s)); break; case cJSON_Raw: RPTR(cJSON_AddRawToObject(p, k, s)); break;
             case cJSON_Array: RPTR(cJSON_AddArrayToObject(p, k)); break; case cJSON_Object: RPTR(cJSON_AddObjectToObject(p, k)); break;
             default: snprintf(why, wn, "bad kind"); return STRUCT_FAIL; }
@@ -499,6 +500,71 @@ static void after_call(cJSON *result_root)
 static void res_ptr(cJSON *p) { if (p) fprintf(tracef, ",\"res\":{\"t\":\"ptr\",\"id\":%d}", rid_of(p)); else fputs(",\"res\":{\"t\":\"null\"}", tracef); }
 static void res_bool(int b) { fprintf(tracef, ",\"res\":{\"t\":\"bool\",\"v\":%s}", b ? "true" : "false"); }
 
+/* ---- library-level histories (--lib): value-level calls on the same pool, judged by Trace_Lib.tla on the value each node denotes ---- */
+static int lib_mode, lib_focus = -1;
+static char gbuf[8192]; static size_t gn; static int gvals;
+static void gput(const char *x) { size_t k = strlen(x); if (gn + k + 1 < sizeof(gbuf)) { memcpy(gbuf + gn, x, k); gn += k; gbuf[gn] = 0; } }
+static void gws(void) { static const char *W[] = { "", "", "", " ", "\n", "\t ", "\r" }; gput(W[rnd(7)]); }
+static void gstr(const char *raw) { gput("\""); if (raw[0] == 'a' && rnd(6) == 0) { gput("\\u0061"); gput(raw + 1); } else if (raw[0] == 'x' && rnd(8) == 0) { gput("\\u0078"); gput(raw + 1); } else gput(raw); gput("\""); }
+static void gen_value(int depth, int nullish)
+{
+    unsigned pick = rnd(depth > 0 ? 9 : 6); int i, n; char num[8];
+    gvals++;
+    switch (pick) {
+        case 0: gput(nullish || rnd(2) ? "null" : "true"); break;
+        case 1: gput("true"); break;
+        case 2: gput("false"); break;
+        case 3: snprintf(num, sizeof(num), "%u", rnd(3)); gput(num); break;
+        case 4: case 5: gstr(RSTRS[rnd(4)]); break;
+        case 6: n = (int)rnd(4); gput("["); gws(); for (i = 0; i < n; i++) { if (i) { gput(","); gws(); } gen_value(depth - 1, 0); } gput("]"); break;
+        default: { unsigned start = rnd(NRKEYS); n = (int)rnd(4); gput("{"); gws();
+            for (i = 0; i < n; i++) { if (i) { gput(","); gws(); } gstr(RKEYS[(start + (unsigned)i * 3u) % NRKEYS]); gws(); gput(":"); gws(); gen_value(depth - 1, nullish); }   /* 8 keys, step 3: distinct */
+            gput("}"); break; }
+    }
+}
+static void gen_text(int depth, int nullish) { gn = 0; gvals = 0; gbuf[0] = 0; gws(); gen_value(depth, nullish); gws(); }
+static void gen_mutate(void)
+{
+    static const char M[] = "[]{},:\"\\ 1e-.x/";
+    if (gn == 0) return;
+    switch (rnd(3)) { case 0: gn = rnd((unsigned)gn); gbuf[gn] = 0; break;
+        case 1: gbuf[rnd((unsigned)gn)] = M[rnd(sizeof(M) - 1)]; break;
+        default: { size_t i = rnd((unsigned)gn); memmove(gbuf + i, gbuf + i + 1, gn - i); gn--; } }
+}
+static void jbytes_n(FILE *f, const char *s, size_t n) { size_t i; fputc('[', f); for (i = 0; i < n; i++) fprintf(f, "%s%u", i ? "," : "", (unsigned char)s[i]); fputc(']', f); }
+static int rall_known(const cJSON *t) { const cJSON *c; if (!t) return 1; if (rid_of(t) < 0) return 0; if (!(t->type & cJSON_IsReference)) for (c = t->child; c; c = c->next) if (!rall_known(c)) return 0; return 1; }
+static cJSON *rrandom_below(cJSON *t) { int steps = (int)rnd(4); while (steps-- > 0 && t->child) { int n = cJSON_GetArraySize(t), k = (int)rnd((unsigned)n); cJSON *c = t->child; while (k-- > 0 && c->next) c = c->next; t = c; } return t; }
+static void res_text(const char *s) { if (s) { fputs(",\"res\":{\"t\":\"text\",\"v\":", tracef); jbytes(tracef, s); fputs("}", tracef); } else fputs(",\"res\":{\"t\":\"null\"}", tracef); }
+/* one RFC 6902 operation aimed at the real document d (paths taken from its nodes), appended to gbuf */
+static void gen_op(cJSON *d)
+{
+    static const char *OPS[] = { "add", "remove", "replace", "test", "copy", "move", "add", "test" };
+    unsigned o = rnd(8); cJSON *x = rrandom_below(d), *y = rrandom_below(d); char *px = cJSONUtils_FindPointerFromObjectTo(d, x), *py = cJSONUtils_FindPointerFromObjectTo(d, y); char path[600];
+    int xc = (x->type & 0xFF), garbage = rnd(12) == 0;
+    snprintf(path, sizeof(path), "%s", px ? px : "");
+    if ((o == 0 || o == 6 || o == 4 || o == 5) && (xc == cJSON_Array || xc == cJSON_Object) && rnd(3)) {      /* into the container */
+        size_t k = strlen(path);
+        if (xc == cJSON_Array) { if (rnd(2)) snprintf(path + k, sizeof(path) - k, "/-"); else snprintf(path + k, sizeof(path) - k, "/%u", rnd((unsigned)cJSON_GetArraySize(x) + 2)); }
+        else snprintf(path + k, sizeof(path) - k, "/%s", RKEYS[rnd(NRKEYS)]);
+    }
+    if ((o == 4 || o == 5) && path[0] == 0) snprintf(path, sizeof(path), "/%s", RKEYS[rnd(NRKEYS)]);      /* copy / move onto the whole document: known finding, not generated */
+    if (o == 1 && path[0] == 0) o = 3;                                                                    /* remove of the whole document: undefined by the RFC */
+    if (garbage) { switch (rnd(4)) { case 0: path[0] = path[0] ? 'q' : 'r'; break; case 1: strcat(path, "/~2"); break; case 2: strcat(path, "/01"); break; default: strcat(path, "/nokey/x"); } }
+    gput("{\"op\":\""); gput(garbage && rnd(3) == 0 ? "mov" : OPS[o]); gput("\",\"path\":\""); gput(path); gput("\"");
+    if (o == 4 || o == 5) { gput(",\"from\":\""); gput(py ? py : ""); gput("\""); }
+    if (o == 0 || o == 2 || o == 3 || o == 6 || o == 7) {
+        if (!(garbage && rnd(2))) { gput(",\"value\":");
+            if ((o == 3 || o == 7) && rnd(3)) { char *t = cJSON_PrintUnformatted(o == 3 ? x : y); gput(t ? t : "null"); cJSON_free(t); gvals += rsubtree_size(x) + rsubtree_size(y); }
+            else { size_t keep = gn; int kv = gvals; char tmp[2048]; static char save[sizeof(gbuf)]; memcpy(save, gbuf, keep); gen_text(1, 0); snprintf(tmp, sizeof(tmp), "%s", gbuf); memcpy(gbuf, save, keep); gn = keep; gbuf[gn] = 0; gvals += kv; gput(tmp); } }
+    }
+    gput("}");
+    if (o == 4) gvals += rsubtree_size(y);
+    gvals += 4;
+    cJSON_free(px); cJSON_free(py);
+}
+static void gen_patch(cJSON *d) { int n = 1 + (int)rnd(2), i; char keep[8192]; size_t kn; gn = 0; gvals = 1; gbuf[0] = 0; gput("[");
+    for (i = 0; i < n; i++) { if (i) gput(","); kn = gn; memcpy(keep, gbuf, gn + 1); gen_op(d); (void)kn; } gput("]"); }
+
 int vd_treerand_main(int argc, char **argv);
 int vd_treerand_main(int argc, char **argv)
 {
@@ -510,6 +576,8 @@ int vd_treerand_main(int argc, char **argv)
         if (!strcmp(argv[k], "--histories") && k + 1 < argc) histories = atoi(argv[k + 1]);
         if (!strcmp(argv[k], "--steps") && k + 1 < argc) steps = atoi(argv[k + 1]);
         if (!strcmp(argv[k], "--nodes") && k + 1 < argc) { RN = atoi(argv[k + 1]); if (RN > RNMAX) RN = RNMAX; if (RN < 2) RN = 2; }
+        if (!strcmp(argv[k], "--lib")) lib_mode = 1;
+        if (!strcmp(argv[k], "--focus") && k + 1 < argc) lib_focus = atoi(argv[k + 1]);     /* value-level call kind that gets half of the value-level steps */
     }
     if (!out) { fprintf(stderr, "treerand: --trace <file> required\n"); return 2; }
     tracef = fopen(out, "w"); rs_state = seed * 2654435761u + 7;
@@ -522,7 +590,7 @@ int vd_treerand_main(int argc, char **argv)
         for (step = 0; step < steps; step++) {
             int conts[RNMAX], nc = 0, arrs[RNMAX], na = 0, objs[RNMAX], no = 0, roots[RNMAX], nr = 0, lives[RNMAX], nl = 0, i, op;
             for (i = 1; i <= RN; i++) if (rp[i]) { int kc = rp[i]->type & 0xFF; lives[nl++] = i; if (rroot[i]) roots[nr++] = i; if (kc == cJSON_Array) { arrs[na++] = i; conts[nc++] = i; } if (kc == cJSON_Object) { objs[no++] = i; conts[nc++] = i; } }
-            op = (int)rnd(24);
+            op = (int)rnd(lib_mode ? 40 : 24);
             if (!VD_TRY()) { vd_violation("random history %d step %d: memory fault in the library", hist, step); fclose(tracef); return 1; }
             if (nl == 0 || (op < 5 && rfree_count() > 0)) {                        /* create */
                 int what = (int)rnd(9); cJSON *n = NULL; const char *s = RSTRS[rnd(4)]; int num = (int)rnd(3);
@@ -595,6 +663,67 @@ int vd_treerand_main(int argc, char **argv)
                 if ((rec ? rsubtree_size(rp[it]) : 1) > rfree_count()) { VD_END(); continue; }
                 d = cJSON_Duplicate(rp[it], vb_truthy(rec, (unsigned long)step)); fprintf(tracef, "{\"e\":\"Call\",\"a\":[\"Duplicate\",%d,%s,0]", it, rec ? "true" : "false");
                 after_call(d); res_ptr(d);
+            } else if (op >= 24 && lib_mode) {                              /* value-level calls */
+                int kind = op - 24, ok = 1;
+                if (lib_focus >= 0 && rnd(2)) kind = lib_focus == 8 ? 8 + (int)rnd(2) : lib_focus;
+                if (kind < 3) {                                             /* Parse */
+                    cJSON *t; gen_text(2, 0); if (rnd(5) == 0) gen_mutate();
+                    if (gvals + 2 > rfree_count() || memchr(gbuf, 0, gn)) { VD_END(); continue; }
+                    t = rnd(2) ? cJSON_ParseWithLength(gbuf, gn) : cJSON_Parse(gbuf);
+                    fputs("{\"e\":\"Call\",\"a\":[\"Parse\",", tracef); jbytes_n(tracef, gbuf, gn); fputs("]", tracef);
+                    after_call(t); if (t && !rall_known(t)) ok = 0; res_ptr(t);
+                } else if (kind < 6 && nl) {                                /* Print */
+                    int it = lives[rnd((unsigned)nl)], fmt = (int)rnd(2), how = (int)rnd(3); char *t; static char pre[8192];
+                    if (how == 0) t = fmt ? cJSON_Print(rp[it]) : cJSON_PrintUnformatted(rp[it]);
+                    else if (how == 1) t = cJSON_PrintBuffered(rp[it], (int)rnd(40), vb_truthy(fmt, (unsigned long)step));
+                    else { t = cJSON_PrintPreallocated(rp[it], pre, (int)sizeof(pre), vb_truthy(fmt, (unsigned long)step + 1)) ? pre : NULL; }
+                    fprintf(tracef, "{\"e\":\"Call\",\"a\":[\"Print\",%d,%s]", it, fmt ? "true" : "false"); after_call(NULL); res_text(t);
+                    if (how != 2) cJSON_free(t);
+                } else if (kind < 8 && nl) {                                /* Compare */
+                    int a = lives[rnd((unsigned)nl)], b = lives[rnd((unsigned)nl)], cs = (int)rnd(2), r;
+                    r = cJSON_Compare(rp[a], rp[b], vb_truthy(cs, (unsigned long)step));
+                    fprintf(tracef, "{\"e\":\"Call\",\"a\":[\"Compare\",%d,%d,%s]", a, b, cs ? "true" : "false"); after_call(NULL); res_bool(r);
+                } else if (kind < 10 && nr) {                               /* pointer lookup / construction */
+                    int d = roots[rnd((unsigned)nr)]; cJSON *x = rrandom_below(rp[d]);
+                    if (kind == 8) { char *ptr = cJSONUtils_FindPointerFromObjectTo(rp[d], x); char buf[700]; cJSON *got;
+                        snprintf(buf, sizeof(buf), "%s", ptr ? ptr : "/"); cJSON_free(ptr);
+                        switch (rnd(6)) { case 0: strcat(buf, "/0"); break; case 1: strcat(buf, "/a"); break; case 2: if (buf[0]) buf[strlen(buf) - 1] = 0; break; case 3: strcat(buf, "/-"); break; default: break; }
+                        got = cJSONUtils_GetPointerCaseSensitive(rp[d], buf);
+                        fprintf(tracef, "{\"e\":\"Call\",\"a\":[\"GetPointer\",%d,", d); jbytes(tracef, buf); fputs("]", tracef); after_call(NULL);
+                        if (got && rid_of(got) < 0) ok = 0; res_ptr(got);
+                    } else { int tgt = rnd(4) ? rid_of(x) : lives[rnd((unsigned)nl)]; char *ptr = cJSONUtils_FindPointerFromObjectTo(rp[d], rp[tgt]);
+                        fprintf(tracef, "{\"e\":\"Call\",\"a\":[\"FindPointer\",%d,%d]", d, tgt); after_call(NULL); res_text(ptr); cJSON_free(ptr); }
+                } else if (kind < 12 && nr) {                               /* ApplyPatches (case sensitive) with a patch parsed from text */
+                    int d = roots[rnd((unsigned)nr)], st; cJSON *patch;
+                    gen_patch(rp[d]);
+                    if (gvals + rsubtree_size(rp[d]) > rfree_count()) { VD_END(); continue; }
+                    patch = cJSON_ParseWithLength(gbuf, gn);
+                    if (!patch) { VD_END(); continue; }
+                    st = cJSONUtils_ApplyPatchesCaseSensitive(rp[d], patch); cJSON_Delete(patch);
+                    fprintf(tracef, "{\"e\":\"Call\",\"a\":[\"ApplyPatches\",%d,", d); jbytes_n(tracef, gbuf, gn); fputs("]", tracef);
+                    after_call(NULL); if (!rall_known(rp[d])) ok = 0; fprintf(tracef, ",\"res\":{\"t\":\"int\",\"v\":%d}", st);
+                } else if (kind < 13 && nr) {                               /* MergePatch */
+                    int d = roots[rnd((unsigned)nr)]; cJSON *patch, *res;
+                    gen_text(2, 1);
+                    if (gvals + 2 > rfree_count()) { VD_END(); continue; }
+                    patch = cJSON_ParseWithLength(gbuf, gn); if (!patch) { VD_END(); continue; }
+                    res = cJSONUtils_MergePatchCaseSensitive(rp[d], patch); cJSON_Delete(patch);
+                    fprintf(tracef, "{\"e\":\"Call\",\"a\":[\"MergePatch\",%d,", d); jbytes_n(tracef, gbuf, gn); fputs("]", tracef);
+                    if (res != rp[d]) rroot[d] = 0;
+                    after_call(res); if (res) rroot[rid_of(res)] = 1; if (!res || !rall_known(res)) ok = 0; res_ptr(res);
+                } else if (kind < 16 && nr >= 2) {                          /* patch / merge-patch generation between two trees the caller holds */
+                    int a = roots[rnd((unsigned)nr)], b = roots[rnd((unsigned)nr)]; cJSON *g; char *t;
+                    if (a == b) { VD_END(); continue; }
+                    if (kind == 13 || kind == 14) { g = cJSONUtils_GeneratePatchesCaseSensitive(rp[a], rp[b]); fprintf(tracef, "{\"e\":\"Call\",\"a\":[\"GeneratePatches\",%d,%d]", a, b); }
+                    else { g = cJSONUtils_GenerateMergePatchCaseSensitive(rp[a], rp[b]); fprintf(tracef, "{\"e\":\"Call\",\"a\":[\"GenerateMergePatch\",%d,%d]", a, b); }
+                    t = g ? cJSON_PrintUnformatted(g) : NULL; cJSON_Delete(g);
+                    after_call(NULL); res_text(t); cJSON_free(t);
+                } else { VD_END(); continue; }
+                if (!ok) {      /* the pool is too small to name what the call created: the history ends here (nothing is concluded from this call) */
+                    int i; VD_END(); fputs(",\"skip\":true,\"post\":[],\"q\":[]}\n{\"e\":\"Reset\"}\n", tracef);
+                    for (i = 1; i <= RN; i++) if (rp[i] && rroot[i] && al_is_live(rp[i])) cJSON_Delete(rp[i]);
+                    memset(rp, 0, sizeof(rp)); memset(rroot, 0, sizeof(rroot)); al_case_begin(); cm_case_begin(); continue;
+                }
             } else if (no) {                                                   /* sort */
                 int p = objs[rnd((unsigned)no)], cs = (int)rnd(2);
                 if (cs) cJSONUtils_SortObjectCaseSensitive(rp[p]); else cJSONUtils_SortObject(rp[p]);
